@@ -51,5 +51,9 @@ func VerifC13Agree() {
 	sB, err := Handshake(a, &peerB)
 	verifrt.Assert(err == nil && len(sB) == Size, "secret is 192 bytes")
 	verifrt.Assert(verifrt.Equal(sA, sB), "both parties derive the same shared secret for all four parity combinations")
+	// ... and it is the specified encoding: the 1536-bit big-endian value, left padded with zeros
+	ref := make([]byte, Size)
+	new(big.Int).Exp(peerA.publicKey, b.privateKey, modpGroup).FillBytes(ref)
+	verifrt.Assert(verifrt.Equal(sA, ref), "the shared secret is the fixed-width (192-byte, zero padded) big-endian value")
 	verifrt.Reach("end")
 }
